@@ -1,4 +1,88 @@
-(* Corr/C08Run.v — C08 reuses the C04 correspondence evaluator: a history of journal writes in which an
-   errored write whose record reached the journal is an unsynced, unacknowledged record, followed by a clean
-   close (strongest image) and reopen. *)
-From GL Require Export Corr.C04Run.
+(* Corr/C08Run.v — correspondence evaluator for C08.  A case is what the harness observed in one fault scenario
+   on the implementation, translated into the operations of the fault model (Store/Faults.v): which step
+   ran, which one failed and how (from the storage's operation log: the failed operation, its file type,
+   whether the whole record reached the file; and from the error returned to the caller), in the order of the
+   operation log, ending with heal + close + reopen.  The evaluator runs the model along the case and checks
+     (1) for every call whose result the harness saw: the model gives the same result (ok / error);
+     (2) three-valued agreement on what the reopened DB holds: every batch the model recovers from the
+         clean-close image must be present and every batch it does not recover must be absent, except the
+         errored journal records (tagged free by the harness: their fate is open), and every batch the model
+         lists as acknowledged must be present. *)
+From GL Require Import Store.Crash Store.Faults.
+
+Inductive ktag :=
+| KS                              (* background step, or a step of a call whose result is checked elsewhere *)
+| KB (free : bool)                (* this step issues the next batch of the workload (free: fate not compared) *)
+| KR (r : cres)                   (* the caller saw r *)
+| KBR (free : bool) (r : cres).   (* both *)
+
+Inductive c08case :=
+| KFault (steps : list (fop * ktag)) (observed : list N).   (* observed: 0-based workload indexes of the batches present after reopen *)
+
+Definition op_n (o : fop) : N :=
+  match o with
+  | FOk (PWrite n _) | FOk (PTxnCommit n) | FJWrite n _ | FJSync n | FWriteLate n _ | FTxnBegin n => n
+  | _ => 0
+  end.
+
+Record kst := { k_s : fstate; k_slots : list (option batch * bool); k_ok : bool }.
+
+Definition kstep (k : kst) (x : fop * ktag) : kst :=
+  let '(o, t) := x in
+  let s := k_s k in
+  let bt := if op_n o =? 0 then None else Some {| b_seq := p_seq (f_m s) + 1; b_n := op_n o |} in
+  let resok := match t with KR r | KBR _ r => cres_eqb (fres s o) r | _ => true end in
+  let slots := match t with KB fr | KBR fr _ => k_slots k ++ [(bt, fr)] | _ => k_slots k end in
+  {| k_s := fstep s o; k_slots := slots; k_ok := k_ok k && resok |}.
+
+(* the workload index of a recovered batch: the LAST slot that issued this value (an earlier slot with the
+   same value never reached storage: its sequence numbers were not consumed) *)
+Fixpoint last_index (x : batch) (slots : list (option batch * bool)) (i : N) (acc : option N) : option N :=
+  match slots with
+  | [] => acc
+  | (Some y, _) :: r => last_index x r (i + 1) (if batch_eqb x y then Some i else acc)
+  | (None, _) :: r => last_index x r (i + 1) acc
+  end.
+
+Definition memN (i : N) (l : list N) : bool := existsb (N.eqb i) l.
+
+Fixpoint slots_agree (slots : list (option batch * bool)) (i : N) (kept observed : list N) : bool :=
+  match slots with
+  | [] => true
+  | (_, fr) :: r => (fr || Bool.eqb (memN i kept) (memN i observed)) && slots_agree r (i + 1) kept observed
+  end.
+
+Fixpoint all_some (l : list (option N)) : option (list N) :=
+  match l with
+  | [] => Some []
+  | Some x :: r => match all_some r with Some r' => Some (x :: r') | None => None end
+  | None :: _ => None
+  end.
+
+Definition run_case (c : c08case) : bool :=
+  match c with
+  | KFault steps observed =>
+      let k := fold_left kstep steps {| k_s := f_init; k_slots := []; k_ok := true |} in
+      let s := k_s k in
+      let p := f_p s in
+      let big := (length (p_issued p) + length (p_man p) + 1)%nat in
+      let rec := recover (mk_image p big big big) in
+      let nslots := N.of_nat (length (k_slots k)) in
+      k_ok k &&
+      match all_some (map (fun x => last_index x (k_slots k) 0 None) rec),
+            all_some (map (fun x => last_index x (k_slots k) 0 None) (p_acked p)) with
+      | Some kept, Some acked =>
+          slots_agree (k_slots k) 0 kept observed &&
+          forallb (fun i => memN i observed) acked &&
+          forallb (fun i => i <? nslots) observed
+      | _, _ => false
+      end
+  end.
+
+Fixpoint mism_from {A} (f : A -> bool) (i : N) (l : list A) : list N :=
+  match l with
+  | [] => []
+  | x :: l' => if f x then mism_from f (i + 1) l' else i :: mism_from f (i + 1) l'
+  end.
+
+Definition mismatches (l : list c08case) : list N := mism_from run_case 0 l.
